@@ -200,7 +200,6 @@ Fixpoint wf_orders (ops : list op) : Prop :=
   | _ :: r => wf_orders r
   end.
 
-Definition ok_end (rs : list result) : bool := match rev rs with Rejected :: _ => false | _ => true end.
 
 Theorem spot_refines ops : forall s, Inv s -> wf (absS s) ops -> wf_orders ops ->
   snd (run s ops) = snd (ref_run (absS s) ops) /\
